@@ -14,6 +14,7 @@ TRUSTED = [
     'real timers oversleep: only the upper bound is a statement about the deployed system; C19_not_starved_partial is about ideal sleeps (model; checked under virtual time only)',
     'one valve per user: C19_shared_valve is about a four-line model of GetSession; the driver harness/server/c19_test.go asserts pointer identity of Session.Valve across sessions obtained from the real userPanel.GetUser / ActiveUser.GetSession (real local manager on a temporary bolt db) and that rx/tx capacities are UpRate/DownRate',
     'F5 (a session created in a terminated user record keeps the old record\'s valve) is outside this check: see C17',
+    'overlapped admissions (harness/server/c19_overlap_test.go): a test UserManager parks AuthenticateUser calls of first connections of one user; lock-out is read off runtime.Stack goroutine states inside the synctest bubble (polling with runtime.Gosched, the virtual clock does not move during admission); only the server->client direction (DownRate) is time-stamped there (the rx tap needs multiplex internals)',
 ]
 ASSUMPTIONS = [
     'request times are non-decreasing (one clock) and every Wait is for a positive count (Wait(0) is a no-op: lemma take_nonpos)',
